@@ -147,6 +147,43 @@ def run(spec, ctx):
                     finally:
                         if closer is not None:
                             closer.close()
+        if not failed and r.random() < 0.5:
+            # lazy entry points of ONE compiled object left half-consumed while another evaluation runs:
+            # finditer/query must still list what findall lists
+            doc2 = gen.gen_doc(r, profile="unique", hostile=0.1, max_depth=3, fan=3)
+            if isinstance(doc, dict) and isinstance(doc2, dict):
+                for k in list(doc)[:3]:
+                    doc2.setdefault(k, r.choice([2, "a", 1001, None]))
+            w1 = impl.call(lambda: [canon(v) for v in jsonpath.findall(text, doc)])
+            w2 = impl.call(lambda: [canon(v) for v in jsonpath.findall(text, doc2)])
+            if w1.ok and w2.ok:
+                it1, it2 = iter(p.finditer(doc)), iter(p.query(doc2).values())
+                g1, g2 = [], []
+                alive1 = alive2 = True
+                steps = 0
+                try:
+                    while alive1 or alive2:
+                        steps += 1
+                        if alive1 and (r.random() < 0.5 or not alive2):
+                            m = next(it1, None)
+                            alive1 = m is not None
+                            if m is not None:
+                                g1.append(canon(m.obj))
+                        elif alive2:
+                            v = next(it2, impl)
+                            alive2 = v is not impl
+                            if v is not impl:
+                                g2.append(canon(v))
+                        if steps == 2:
+                            p.match(doc2)
+                            p.findall(doc2)
+                except Exception as e:  # noqa: BLE001
+                    ctx.violation("interleaved-lazy-entry-points-raised:%s" % type(e).__name__, dict(case, doc2=doc2), {"text": text})
+                    continue
+                ctx.count("interleaved_lazy_pairs")
+                if g1 != w1.value or g2 != w2.value:
+                    ctx.violation("interleaved-lazy-entry-points-disagree-with-findall", dict(case, doc2=doc2), {"text": text, "finditer(doc)": repr(g1)[:300], "findall(doc)": repr(w1.value)[:300], "query(doc2)": repr(g2)[:300], "findall(doc2)": repr(w2.value)[:300]})
+                    continue
         if not failed and (len(ctx.samples) < 3 or r.random() < 0.003):
             ctx.sample({"text": text, "operands": nops, "ops": ops, "matches": len(want)})
 
